@@ -7,6 +7,7 @@ import (
 	"os"
 	"os/exec"
 	"path/filepath"
+	"runtime/pprof"
 	"sort"
 	"strconv"
 	"strings"
@@ -47,7 +48,18 @@ func main() {
 		p := strings.SplitN(kv, "=", 2)
 		os.Setenv(p[0], p[1])
 	}
+	if pf := os.Getenv("VERIF_PROF"); pf != "" {
+		f, _ := os.Create(pf)
+		pprof.StartCPUProfile(f)
+		defer pprof.StopCPUProfile()
+	}
 	env := defaultEnv()
+	code := mainCmd(env)
+	pprof.StopCPUProfile()
+	os.Exit(code)
+}
+
+func mainCmd(env *Env) int {
 	switch os.Args[1] {
 	case "check":
 		fs := flag.NewFlagSet("check", flag.ExitOnError)
@@ -56,7 +68,7 @@ func main() {
 		v := fs.Bool("v", false, "verbose")
 		fs.Parse(os.Args[2:])
 		env.Verbose = *v
-		os.Exit(cmdCheck(env, *id, *tier))
+		return cmdCheck(env, *id, *tier)
 	case "run":
 		fs := flag.NewFlagSet("run", flag.ExitOnError)
 		module := fs.String("module", "memutils", "")
@@ -87,15 +99,16 @@ func main() {
 			specs = append(specs, JobSpec{Module: *module, Pkg: *pkg, Entry: e, CfgsQuick: cl, CfgsThorough: cl})
 		}
 		spec := &CheckSpec{Level: "model_checking", Jobs: specs}
-		os.Exit(runCheck(env, "DEV", *tier, spec, !*noreplay))
+		return runCheck(env, "DEV", *tier, spec, !*noreplay)
 	case "replay":
 		fs := flag.NewFlagSet("replay", flag.ExitOnError)
 		file := fs.String("file", "", "")
 		fs.Parse(os.Args[2:])
-		os.Exit(cmdReplay(env, *file))
+		return cmdReplay(env, *file)
 	default:
 		usage()
 	}
+	return 2
 }
 
 func loadSpecs(env *Env) (map[string]*CheckSpec, error) {
@@ -286,7 +299,7 @@ func runCheck(env *Env, id, tier string, spec *CheckSpec, doReplay bool) int {
 		if tierN == 0 && n > 40 {
 			n = 40
 		}
-		c1, d1 := crossCheck(rr.samples[:n], []string{"z3-new", "-in", "-smt2"}, env.SolverMs)
+		c1, d1 := crossCheck(rr.samples[:n], []string{"/usr/bin/z3", "-in", "-smt2"}, env.SolverMs)
 		c2, d2 := crossCheck(rr.samples[:n], []string{"cvc5", "--incremental", "--lang=smt2", "--tlimit-per=60000"}, env.SolverMs)
 		diffChecked = c1 + c2
 		diffDisagree = append(d1, d2...)
@@ -423,40 +436,42 @@ func runCheck(env *Env, id, tier string, spec *CheckSpec, doReplay bool) int {
 		jobList = append(jobList, fmt.Sprintf("%s/cfg%d:paths=%d", j.Entry, j.Cfg, j.res.paths))
 	}
 	cov := map[string]any{
-		"states":                        max(totalPaths, 0),
-		"transitions":                   totalDecisions + totalOps,
-		"traces_validated_against_impl": validated,
-		"samples":                       sampleOut,
-		"evaluations":                   totalPaths,
-		"distinct_nontrivial":           totalPaths,
-		"rule":                          "one evaluation = one symbolic path (a distinct vector of branch/concretisation decisions) of a harness entry, decided by the SMT solver for all values of the symbolic inputs; all are distinct by construction",
-		"exhaustive":                    len(inconclusive) == 0,
-		"explanation":                   "symbolic execution of the real code from go/ssa of /repo's working tree; states = symbolic paths fully explored, transitions = branch decisions + API operations executed; every path condition and assertion decided by z3 4.8.12 over 64-bit bit-vectors",
-		"bounds":                        bounds,
-		"outside_the_claim":             spec.Outside,
-		"jobs":                          jobList,
-		"functions_encoded":             sortedFuncs(rr.funcs, true),
-		"source_files_sha256_16":        files,
-		"solver_queries":                rr.queries,
-		"solver_sat":                    rr.sat,
-		"solver_unsat":                  rr.unsat,
-		"solver_unknown":                rr.unknown,
-		"solver_time_s":                 round2(rr.solverDur.Seconds()),
-		"solver_slowest_query_s":        round2(rr.slowest.Seconds()),
-		"solver_diff_checked":           diffChecked,
-		"solver_diff_disagreements":     len(diffDisagree),
-		"reach_counts":                  reach,
-		"assert_sites_evaluated":        asserts,
-		"paths_ended_in_panic":          panics,
-		"paths_aborted":                 aborted,
-		"inconclusive":                  inconclusive,
-		"load_time_s":                   round2(ld.loadDur.Seconds()),
-		"explore_time_s":                round2(rr.wall.Seconds()),
-		"workers":                       env.Workers,
-		"obligations":                   rr.queries,
-		"discharged":                    rr.queries - rr.unknown,
-		"checker_cmd":                   "z3 -in -smt2 (4.8.12), cross-checked with z3-new 5.1.0 and cvc5 --incremental",
-		"trusted_base":                  []string{"symgo engine (/verif/engine)", "golang.org/x/tools/go/ssa v0.50.0", "z3 4.8.12", "harness oracles in /verif/harness"},
+		"states":                                max(totalPaths, 0),
+		"transitions":                           totalDecisions + totalOps,
+		"traces_validated_against_impl":         validated,
+		"samples":                               sampleOut,
+		"evaluations":                           totalPaths,
+		"distinct_nontrivial":                   totalPaths,
+		"rule":                                  "one evaluation = one symbolic path (a distinct vector of branch/concretisation decisions) of a harness entry, decided by the SMT solver for all values of the symbolic inputs; all are distinct by construction",
+		"exhaustive":                            len(inconclusive) == 0,
+		"explanation":                           "symbolic execution of the real code from go/ssa of /repo's working tree; states = symbolic paths fully explored, transitions = branch decisions + API operations executed; every path condition and assertion decided by z3 5.1.0 over 64-bit bit-vectors",
+		"bounds":                                bounds,
+		"outside_the_claim":                     spec.Outside,
+		"jobs":                                  jobList,
+		"functions_encoded":                     sortedFuncs(rr.funcs, true),
+		"source_files_sha256_16":                files,
+		"solver_queries":                        rr.queries,
+		"solver_sat":                            rr.sat,
+		"solver_unsat":                          rr.unsat,
+		"solver_unknown":                        rr.unknown,
+		"solver_time_s":                         round2(rr.solverDur.Seconds()),
+		"solver_slowest_query_s":                round2(rr.slowest.Seconds()),
+		"queries_avoided_by_unsat_core_cache":   rr.coreHits,
+		"branches_decided_by_interval_analysis": rr.ivalSkips,
+		"solver_diff_checked":                   diffChecked,
+		"solver_diff_disagreements":             len(diffDisagree),
+		"reach_counts":                          reach,
+		"assert_sites_evaluated":                asserts,
+		"paths_ended_in_panic":                  panics,
+		"paths_aborted":                         aborted,
+		"inconclusive":                          inconclusive,
+		"load_time_s":                           round2(ld.loadDur.Seconds()),
+		"explore_time_s":                        round2(rr.wall.Seconds()),
+		"workers":                               env.Workers,
+		"obligations":                           rr.queries,
+		"discharged":                            rr.queries - rr.unknown,
+		"checker_cmd":                           "z3-new -in -smt2 (z3 5.1.0, QF_BV, one fresh script per query), a sample re-decided by /usr/bin/z3 4.8.12 and cvc5 1.0",
+		"trusted_base":                          []string{"symgo engine (/verif/engine)", "golang.org/x/tools/go/ssa v0.50.0", "z3 5.1.0 (z3-new)", "harness oracles in /verif/harness"},
 	}
 	ev := Evidence{PropertyID: id, Tier: tier, Seed: seed, Level: level, Coverage: cov,
 		Assumptions: append([]string{"environment stubs of DESIGN.md §2.4"}, spec.Assumptions...), WallS: round2(time.Since(t0).Seconds()), Violations: nviol}
@@ -466,8 +481,25 @@ func runCheck(env *Env, id, tier string, spec *CheckSpec, doReplay bool) int {
 			return 2
 		}
 	}
-	fmt.Printf("%s %s: paths=%d queries=%d (sat %d / unsat %d / unknown %d) solver=%.1fs wall=%.1fs validated=%d violations=%d exit=%d\n",
-		id, tier, totalPaths, rr.queries, rr.sat, rr.unsat, rr.unknown, rr.solverDur.Seconds(), time.Since(t0).Seconds(), validated, nviol, exit)
+	fmt.Printf("%s %s: paths=%d queries=%d (sat %d / unsat %d / unknown %d; core-cache hits %d, interval-decided %d) solver=%.1fs wall=%.1fs validated=%d violations=%d exit=%d\n",
+		id, tier, totalPaths, rr.queries, rr.sat, rr.unsat, rr.unknown, rr.coreHits, rr.ivalSkips, rr.solverDur.Seconds(), time.Since(t0).Seconds(), validated, nviol, exit)
+	if len(rr.siteStats) > 0 {
+		type kv struct {
+			k string
+			v [3]int
+		}
+		var l []kv
+		for k, v := range rr.siteStats {
+			l = append(l, kv{k, *v})
+		}
+		sort.Slice(l, func(i, j int) bool { return l[i].v[0]+l[i].v[1] > l[j].v[0]+l[j].v[1] })
+		for i, x := range l {
+			if i > 40 {
+				break
+			}
+			fmt.Printf("  site %-70s sat=%d unsat=%d\n", x.k, x.v[0], x.v[1])
+		}
+	}
 	if env.Verbose {
 		for _, k := range sortedKeys(reach) {
 			fmt.Printf("  reach %s = %d\n", k, reach[k])
